@@ -81,7 +81,9 @@ func scenC08(r *Run, job *Job) {
 		killLat = time.Duration(1+t.Draw(200)) * time.Millisecond
 	}
 	holdSite, holdNth, holdSteps := "", 0, 0
-	if t.Chance(1, 2) {
+	// unlock-yield pass: every prefix holds somebody at an explicit unlock point, and across the emulator's timers
+	uy := r.Sched != nil && r.Sched.UnlockYield
+	if withHold := t.Chance(1, 2); withHold || uy {
 		holdSite = c08Sites[t.Draw(len(c08Sites))]
 		if t.Chance(1, 3) && len(r.Sites) > 0 {
 			holdSite = r.Sites[t.Draw(len(r.Sites))]
@@ -110,7 +112,7 @@ func scenC08(r *Run, job *Job) {
 	w := r.NewWorld(WorldCfg{TimeoutSec: timeoutSec, ExtFiles: ExtFiles(exts)}, job.Seed)
 	e := w.NewEngine()
 	e.Bound = time.Duration((nP+nS+2)*(timeoutSec+10)) * time.Second
-	if strings.Contains(holdSite, "Server).Reserve<") {
+	if strings.Contains(holdSite, "Server).Reserve<") || uy && holdSite != "" {
 		// dispatch stall: the goroutine that reserves for the caller stays descheduled while the emulator's own timers
 		// (the invoke timeout among them) fire, for up to half a second longer than the function timeout
 		e.HoldAcrossTimers = true
